@@ -3,12 +3,16 @@
 import glob, json, os
 V = os.path.dirname(os.path.dirname(os.path.abspath(__file__)))
 rows = []
+harmless = []
 for d in sorted(glob.glob(os.path.join(V, "seeded", "*"))):
     mp = os.path.join(d, "meta.json")
     if not os.path.exists(mp):
         continue
     m = json.load(open(mp))
     name = os.path.basename(d)
+    if m.get("kind") == "harmless" or name.startswith("harmless"):
+        harmless.append((name, m))
+        continue
     if "checks_run" not in m:
         res = m.get("result", "not run yet")
     else:
@@ -26,3 +30,19 @@ for d in sorted(glob.glob(os.path.join(V, "seeded", "*"))):
                                          (m.get("needs_to_manifest", "") or "").replace("|", "/").replace("\n", " ")[:200], res + ((" — " + hist) if hist else "")))
 print("| seed | change | needs, to manifest | result |\n|---|---|---|---|")
 print("\n".join(rows))
+
+if harmless:
+    print()
+    print("**Harmless rewrites** (independent sub-agents asked for realistic maintenance changes after which the property still")
+    print("holds — equivalent formulas that round differently, correct caches, refactorings; each compiles and passes the")
+    print("13 shipped tests). The owning check must stay silent (exit 0, no VIOLATION line).")
+    print()
+    print("| rewrite | change | numerically identical | result |\n|---|---|---|---|")
+    for name, m in harmless:
+        cr = m.get("checks_run") or {}
+        if cr:
+            res = "; ".join("%s: %s" % (p, "FALSE ALARM" if (r.get("exit") != 0 or r.get("detected")) else "silent (pass)") for p, r in cr.items())
+        else:
+            res = m.get("result", "not run yet")
+        hist = m.get("history", "")
+        print("| %s | %s | %s | %s |" % (name, (m.get("description", "") or "").replace("|", "/").replace("\n", " ")[:300], m.get("numerically_identical", ""), res + ((" — " + hist) if hist else "")))
